@@ -81,6 +81,11 @@ import (
 //      The same functions run on the leader before a ZREMRANGEBY* is proposed
 //      (D11), so the generator emits only accepted ranges for those writes.
 //  D15 a table counter is kept per table (not modelled, not compared: C12).
+//  D16 bulk reads refuse more than 5000 elements with an error: HGETALL/HKEYS/
+//      HVALS/SMEMBERS of a larger collection, LRANGE/ZRANGE/ZREVRANGE windows
+//      and ZRANGEBYSCORE/ZRANGEBYLEX results longer than that.
+//      doc/user-guide.md:10 ("服务端目前配置最大一次性获取5000, 超过会直接返回
+//      错误信息"); rockredis MAX_BATCH_NUM.
 // ---------------------------------------------------------------------------
 
 type Reply = smlab.Reply
@@ -142,6 +147,9 @@ const (
 )
 
 const maxValueSize = 8 * 1024 * 1024
+
+// maxBulkRead is D16's limit (rockredis.MAX_BATCH_NUM).
+const maxBulkRead = 5000
 
 type kvEnt struct {
 	v   string
